@@ -347,6 +347,8 @@ class err_handler(object):
             # GE of a group that was never opened in this interchange: nothing to close
             return
         self.cur_gs_node.close(node, seg, src)
+        # the sets of the group are not open any more: what follows GE (a TA1) is none of theirs
+        self.cur_st_node = None
         self.cur_seg_node = self.cur_gs_node
         self.seg_node_added = True
 
